@@ -40,8 +40,8 @@ def any_token_matches(text, actual, need_positive=True):
     for t in toks:
         if t[2] in actual and (actual[t[2]] != 0 or not need_positive) and token_matches(t, actual):
             return True, toks
-        if t[2] in actual and actual[t[2]] == 0 and t[0] == 0:
-            return True, toks
+        if t[2] in actual and actual[t[2]] == 0 and t[0] == 0 and not any(actual.values()):
+            return True, toks      # ('0.0 L' states that nothing was added; of 4 g of a solid without volume it states nothing)
     return False, toks
 
 
@@ -138,7 +138,12 @@ def _per_substance(text, contents, where, extra=None):
             toks = tokens(head)
             if toks and toks[-1][3] == len(head):
                 mentions.append(toks[-1])
-        if len(mentions) == 1:
+        same_name = [s2 for s2, a2 in contents.items() if a2 != 0 and s2.name == s.name]
+        if len(same_name) > 1:
+            # two lots of one enzyme (same name, another specific activity) are two substances: each has its own mention -
+            # this one's amount must be one of them (and there must be a mention for every lot)
+            found = len(mentions) >= len(same_name) and any(token_matches(t_, actual, 0.0) for t_ in mentions)
+        elif len(mentions) == 1:
             found = token_matches(mentions[0], actual, 0.0)
         elif len(mentions) > 1 and len({t_[2] for t_ in mentions}) == 1:
             # several amounts "of" the same substance are portions: a reader adds them up
